@@ -260,7 +260,9 @@ func (p *c04PV) detach() int {
 
 // c04Incarnation starts a node on what is on disk (WAL, sign state) and in the stores, with a WAL
 // that kills the receive routine at write index crashAt (0 = never).  It returns "crashed",
-// "stopheight" or "block" (a new block was made without crashing) or "timeout".
+// "stopheight", "block" (a new block was made without crashing), "no-crash-wal-reopened",
+// "halted-signer-refuses", "timeout" or "start-failed" — and only after the node is down and its
+// signer detached (j.unclean is set when the node could not be brought down within c04StopWait).
 func c04Incarnation(t *testing.T, conf *cfg.Config, blockDB dbm.DB, j *c04Journal, crashAt int, heightToStop int64, withTxs bool) string {
 	stateStore := sm.NewStore(blockDB, sm.StoreOptions{DiscardABCIResponses: false})
 	state, err := stateStore.LoadFromDBOrGenesisFile(conf.GenesisFile())
